@@ -18,7 +18,7 @@ import builtins as _bi
 from dataclasses import dataclass, field
 from typing import Any, Callable, Dict, List, Optional, Tuple
 
-from .model import AnalysisError, ClassInfo, FuncInfo, ModuleInfo, NotConstant, Repo, dotted, norm
+from .model import NTRow, AnalysisError, ClassInfo, FuncInfo, ModuleInfo, NotConstant, Repo, dotted, norm
 
 
 # --------------------------------------------------------------------------- values
@@ -1248,6 +1248,10 @@ class Interp:
         if isinstance(obj, NTVal):
             if name in obj.ntc.fields:
                 return obj[obj.ntc.fields.index(name)]
+            raise Raised(ExcVal('AttributeError', (name,)))
+        if isinstance(obj, NTRow):
+            if name in obj._fields:
+                return obj.field(name)
             raise Raised(ExcVal('AttributeError', (name,)))
         if isinstance(obj, ExcVal):
             if name == 'args':
